@@ -10,7 +10,7 @@ from . import common as cm
 ID = "C04"
 LEVEL = "model_checking"
 RULE = ("every well-posed network (exact decision per class) of the listed levels with at least one source x every "
-        "orientation x every reference node x palette; for each: every scale factor in {2,-1,j,1/2+j,1e-3}, every subset "
+        "orientation (branch ids ascending with the listing position for even-parity orientation masks, descending for odd) x every reference node x palette; for each: every scale factor in {2,-1,j,1/2+j,1e-3}, every subset "
         "of the source set kept active through the library's own zeroing operations with keep lists (all 2^k subsets, "
         "k<=4), and the all-off network; states = distinct networks judged, transitions = library solves judged; "
         "non-trivial = network with a non-zero solution")
@@ -75,7 +75,10 @@ def run_shard(desc):
                 for lab in labs:
                     labels = sp.LABELS_PLAIN[:n] if lab == "plain" else sp.LABELS_ODD[:n]
                     for ref_idx in range(n):
-                        nl = cm.build_netlist(topo, kt, orient, ref_idx, labels, pal, sp.IDS_ASC[:b])
+                        # branch ids ascend with the listing position for even-parity orientation masks and descend
+                        # for odd ones, so listing order and alphabetical order of the sources disagree in half the cases
+                        ids = sp.IDS_ASC[:b] if bin(orient).count("1") % 2 == 0 else list(reversed(sp.IDS_ASC[:b]))
+                        nl = cm.build_netlist(topo, kt, orient, ref_idx, labels, pal, ids)
                         judge(nl, pal, res)
     return res
 
